@@ -74,6 +74,13 @@ impl Arena {
     /// A mutable window of `len` bytes at the requested placement. The
     /// content is whatever was there before.
     pub fn window(&mut self, len: usize, place: Place) -> &mut [u8] {
+        if len + 2 * PAGE > self.data_len {
+            // grow: a fresh, larger mapping (contents are rewritten by every caller anyway)
+            let pages = (len + 2 * PAGE) / PAGE + 2;
+            let bigger = Arena::new(pages);
+            let old = std::mem::replace(self, bigger);
+            drop(old);
+        }
         assert!(len + 2 * PAGE <= self.data_len, "arena too small");
         unsafe {
             let p = match place {
